@@ -604,7 +604,8 @@ def _judge_counting(ctx, init, construct, o, pred, ref, LBL):
         a = o.attrs
         ctx.decide("R02.5", init, init.node, construct + ":n_pred", "default number of prediction instances = unique non-zero labels of the prediction array", a.get("n_prediction_instance") == 3, {"got": repr(a.get("n_prediction_instance"))})
         ctx.decide("R02.5", init, init.node, construct + ":n_ref", "default number of reference instances = unique non-zero labels of the reference array", a.get("n_reference_instance") == 4, {"got": repr(a.get("n_reference_instance"))})
-        ctx.decide("R02.5", init, init.node, construct + ":matched", "matched instances = labels present in both arrays", sorted(x.name for x in a.get("matched_instances", []) if isinstance(x, Sym)) == ["B", "C"], {"got": repr(a.get("matched_instances"))})
+        mi = a.get("matched_instances", [])
+        ctx.decide("R02.5", init, init.node, construct + ":matched", "matched instances = labels present in both arrays", (sorted(x.name for x in mi if isinstance(x, Sym)) == ["B", "C"]) if isinstance(mi, (list, tuple)) else None, {"got": repr(mi)})
         ctx.decide("R02.5", init, init.node, construct + ":arrays", "arrays are stored uncrossed", a.get("_prediction_arr") is pred and a.get("_reference_arr") is ref, None, nontrivial=False)
         ctx.decide("R02.5", init, init.node, construct + ":labels", "label tuples belong to their own side", list(a.get("_pred_labels", ())) == LBL["PRED"] and list(a.get("_ref_labels", ())) == LBL["REF"], {"pred": repr(a.get("_pred_labels")), "ref": repr(a.get("_ref_labels"))})
 
